@@ -545,6 +545,36 @@ func genC13(g *G) {
 	}
 	// 4. refresh: body variants × announced-hash variants × event lists × store outcome
 	thrs := []string{"1", "2", "3", "0", "-1", "0x2", "abc", "", "1_0", "9223372036854775807", "9223372036854775808"}
+	// 4a. systematic: an otherwise fully acceptable refresh × every threshold string × store outcome × position of the
+	//     good hash in the event list; and a valid topology × every (body form, hash form) pair
+	for _, thr := range thrs {
+		for _, sOk := range []string{"1", "0"} {
+			ct := c13Encrypt(g.Bytes(16), c13TopoJSON(g, c13Subset(g), thr))
+			other := c13Sha(g.Bytes(8))
+			for _, evs := range []string{c13Sha(ct), other + "," + c13Sha(ct), c13Sha(ct) + "," + other, "E," + c13Sha(ct), c13Sha(ct) + ",E"} {
+				g.Emit("refresh", "0,1,2/2", evs, hx([]byte(hex.EncodeToString(ct))), c13Oracle(ct), sOk)
+			}
+		}
+	}
+	for rep := 0; rep < g.Count(1, 10); rep++ {
+		ct := c13Encrypt(g.Bytes(16), c13TopoJSON(g, c13Subset(g), "2"))
+		hexct := hex.EncodeToString(ct)
+		bodies := []string{hexct, hexct + "\n", hexct + "\n\n", "\n" + hexct, strings.ToUpper(hexct), hexct[:len(hexct)-1], hexct[:len(hexct)-2],
+			hexct[:32], hexct[:30], hexct + "00", "0x" + hexct, " " + hexct, hexct + " ", ""}
+		for _, b := range bodies {
+			good := c13Sha(ct)
+			var dec []byte
+			if d, err := hex.DecodeString(strings.TrimSuffix(b, "\n")); err == nil {
+				good = c13Sha(d)
+				dec = d
+			}
+			flipped := []byte(good)
+			flipped[17] ^= 1
+			for _, h := range []string{good, strings.ToUpper(good), c13Sha(ct), "E", string(flipped), good[:63], good + "0", "0x" + good} {
+				g.Emit("refresh", "3,4/1", h, hx([]byte(b)), c13Oracle(dec), "1")
+			}
+		}
+	}
 	for i := 0; i < g.Count(900, 40000); i++ {
 		init := c13Ints(c13Subset(g)) + "/" + itoa(1+g.Intn(3))
 		thr := "2"
